@@ -1,13 +1,64 @@
 package main
 
 import (
+	"bytes"
+	"encoding/json"
 	"fmt"
 	"os"
 	"path/filepath"
 	"sort"
+	"strings"
 
+	"github.com/modernizing/coca/cmd"
 	"github.com/modernizing/coca/pkg/application/todo"
+	"github.com/modernizing/coca/pkg/application/todo/astitodo"
 )
+
+// c17ViaCommand runs the cobra command twice in this process (in a scratch working directory): a decoy scan with
+// another extension, then the real one; returns what the second run wrote to coca_reporter/simple-todos.json
+func c17ViaCommand(root string, exts []string) (res []*astitodo.TODO, ok bool) {
+	wd, err := os.Getwd()
+	if err != nil {
+		return nil, false
+	}
+	work, err := os.MkdirTemp(os.Getenv("VERIF_SCRATCH"), "verif-c17cmd-")
+	if err != nil {
+		return nil, false
+	}
+	defer os.RemoveAll(work)
+	decoy := filepath.Join(work, "decoy")
+	os.MkdirAll(decoy, 0o755)
+	os.WriteFile(filepath.Join(decoy, "Decoy.decoyext"), []byte("// TODO decoy entry\nclass Decoy {}\n"), 0o644)
+	os.WriteFile(filepath.Join(decoy, "Decoy.java"), []byte("// TODO decoy java entry\nclass Decoy {}\n"), 0o644)
+	if err := os.Chdir(work); err != nil {
+		return nil, false
+	}
+	defer os.Chdir(wd)
+	defer func() {
+		if r := recover(); r != nil {
+			panic(r) // a panic of the scan is part of the observation of the caller
+		}
+	}()
+	var buf bytes.Buffer
+	root1 := cmd.NewRootCmd(&buf)
+	root1.SetArgs([]string{"todo", "-p", decoy, "-e", ".decoyext,.java"})
+	if err := root1.Execute(); err != nil {
+		return nil, false
+	}
+	root2 := cmd.NewRootCmd(&buf)
+	root2.SetArgs([]string{"todo", "-p", root, "-e", strings.Join(exts, ",")})
+	if err := root2.Execute(); err != nil {
+		return nil, false
+	}
+	data, err := os.ReadFile(filepath.Join(work, "coca_reporter", "simple-todos.json"))
+	if err != nil {
+		return nil, false
+	}
+	if err := json.Unmarshal(data, &res); err != nil {
+		return nil, false
+	}
+	return res, true
+}
 
 func init() {
 	// (exts ((name kind items text) ...)) -> (status ((file line assignee message) ...))
@@ -46,6 +97,23 @@ func init() {
 			}
 		}()
 		todos := todo.NewTodoApp().AnalysisPath(rootArg(dir, in.Nth(1)), exts)
+		// every third tree also goes through the command, executed twice in this process the way the project's own
+		// command tests do: first on another directory with another extension list, then `todo -p DIR -e EXTS` --
+		// coca_reporter/simple-todos.json of the second run is the observation (what an earlier run selected must
+		// not be scanned again)
+		usable := len(exts) > 0
+		for _, e := range exts {
+			if e == "" || strings.Contains(e, ",") {
+				usable = false
+			}
+		}
+		if usable && len(in.Nth(1).Items())%3 == 0 {
+			if got, ok := c17ViaCommand(rootArg(dir, in.Nth(1)), exts); ok {
+				todos = got
+			} else {
+				return L(A("!CLI-ERROR"), L())
+			}
+		}
 		type row struct {
 			file string
 			sx   Sx
